@@ -9,6 +9,26 @@ GROUPS = {
         "package": "zydeco-syntax",
         "mods": {
             "lang/syntax/src/lib.rs": "syntax_lib.rs",
+            "lang/syntax/src/text.rs": "syntax_text.rs",
+        },
+    },
+    "utils": {
+        "package": "zydeco-utils",
+        "mods": {
+            "lang/utils/src/span.rs": "utils_span.rs",
+        },
+    },
+    "statics": {
+        "package": "zydeco-statics",
+        "mods": {
+            "lang/statics/src/builtin.rs": "statics_builtin.rs",
+        },
+    },
+    "surface": {
+        "package": "zydeco-surface",
+        "mods": {
+            "lang/surface/src/textual/lexer.rs": "surface_lexer.rs",
+            "lang/surface/src/textual/escape.rs": "gen:surface_actions.rs",
         },
     },
 }
@@ -38,6 +58,63 @@ PROPERTIES = {
             "Float to_string / decimal text -> f64 (dec2flt, Grisu) are not encoded",
             "the Int64/Float64 defaulting rule and 'no implicit conversions' at the type-checker level (Tm::Lit arm, salsa literal query)",
             "end-to-end path source literal -> printed value",
+        ],
+    },
+    "C11": {
+        "level": "model_checking",
+        "explanation": (
+            "Bounded model checking (Kani/CBMC) of the real streaming lexer `impl Iterator for Lexer` with the "
+            "logos DFA replaced by a stub that replays an arbitrary solver-chosen raw token sequence: for every "
+            "sequence of raw tokens up to the bound the delivered stream must equal, token for token and span for "
+            "span, the tokens outside comments, and may end only at the end of the source."
+        ),
+        "assumptions": [
+            "logos never yields Err for this token grammar (Unknown `.` catches every character); checked by the c11_dfa harnesses on short inputs",
+            "LALRPOP's generated driver consumes its token iterator until None and rejects tokens without a terminal (Unknown, stray CommentClose)",
+            "an unterminated `/-` turns the rest of the file into comment (allowed by the statement; mirrored by the oracle)",
+        ],
+        "outside": [
+            "token boundaries chosen by the logos DFA on real text longer than the c11_dfa bound",
+            "the LR automaton itself",
+        ],
+    },
+    "C10": {
+        "level": "model_checking",
+        "requires_gen": ["surface_actions"],
+        "explanation": (
+            "Bounded model checking (Kani/CBMC) of the leaf computations of the front end where user bytes become "
+            "values and positions - literal actions copied from parser.lalrpop at run time, escape decoding, "
+            "byte-offset -> line/column translation, compact span packing, directive decoding, and the streaming "
+            "lexer - for every input up to the stated sizes: they terminate without panic and every location they "
+            "compute lies inside the file."
+        ),
+        "assumptions": [
+            "token texts handed to the literal actions match the lexer's regex for that token (that is what the LR driver passes)",
+            "span ends passed to the location translation are token boundaries of the same text (<= text length)",
+        ],
+        "outside": [
+            "the LR automaton, desugarer, resolver, type checker and ariadne rendering (most `expect` sites) are not encoded",
+            "float literal text (dec2flt)",
+            "inputs longer than the per-harness byte bounds",
+        ],
+    },
+    "C06": {
+        "level": "model_checking",
+        "explanation": (
+            "Bounded model checking (Kani/CBMC) of the real role tables and host-operation code: for a symbolic role "
+            "over all 126 roles the declared arity, the ABI classifier and the materialised primitive agree; the "
+            "scalar-indexed text operations are checked against the scalar sequence the text was built from for "
+            "every text up to the bound and every index; the host entry points are run on arguments synthesised "
+            "from the declared classifier and must consume exactly those and continue with the declared shape."
+        ),
+        "assumptions": [
+            "operations are called at the type the Builtin signature declares (arguments synthesised from the ABI classifier)",
+        ],
+        "outside": [
+            "Fs* roles, non-standard handles and the closed-handle table (HostRuntime = two std HashMaps over File FFI)",
+            "RandomInt; real I/O failures",
+            "the signature validator that rejects a role attached to another type (reads StaticsArena)",
+            "agreement with lib/std/builtin*.zy source text and stackir/builtin.rs",
         ],
     },
 }
